@@ -198,24 +198,30 @@ Proof.
     rewrite IH by exact Hu. unfold hexfold. f_equal. lia.
 Qed.
 
-(* appendHex writes hex digits whose value is the group: checked for all 65536 groups *)
+(* appendHex writes hex digits whose value is the group: per digit, hexval inverts hexdigit; the
+   four-digit statement follows arithmetically (g = ((d3*16+d2)*16+d1)*16+d0 with di = (g / 16^i) mod 16),
+   by cases on which leading digits appendHex suppresses *)
 Definition hex4_ok (x : N) : bool := all_bytes hexc (hex4 x) && (hexfold 0 (hex4 x) =? x).
 
-Fixpoint all_below (f : N -> bool) (k : nat) : bool :=
-  match k with O => true | S k' => f (N.of_nat k') && all_below f k' end.
-
-Lemma all_below_spec f k : all_below f k = true -> forall x, x < N.of_nat k -> f x = true.
+Lemma hexval_hexdigit d : d < 16 -> hexval (hexdigit d) = Some d.
 Proof.
-  induction k as [|k IH]; intros H x Hx; [lia|]. cbn [all_below] in H.
-  apply andb_true_iff in H. destruct H as [H0 H1].
-  destruct (N.eq_dec x (N.of_nat k)) as [->|Hne]; [exact H0|]. apply IH; [exact H1 | lia].
+  intros H. unfold hexdigit, hexval. destruct (d <? 10) eqn:E.
+  - replace ((48 <=? 48 + d) && (48 + d <=? 57)) with true by lia. f_equal. lia.
+  - replace ((48 <=? 87 + d) && (87 + d <=? 57)) with false by lia.
+    replace ((97 <=? 87 + d) && (87 + d <=? 102)) with true by lia. f_equal. lia.
 Qed.
 
-Lemma hex4_ok_all : all_below hex4_ok (N.to_nat 65536) = true.
-Proof. vm_compute. reflexivity. Qed.
-
 Lemma hex4_ok_lt x : x < 65536 -> hex4_ok x = true.
-Proof. intros H. apply (all_below_spec _ _ hex4_ok_all). rewrite N2Nat.id. exact H. Qed.
+Proof.
+  intros Hx. unfold hex4_ok, hex4.
+  assert (H3 : (x / 4096) mod 16 < 16) by (apply N.mod_lt; discriminate).
+  assert (H2 : (x / 256) mod 16 < 16) by (apply N.mod_lt; discriminate).
+  assert (H1 : (x / 16) mod 16 < 16) by (apply N.mod_lt; discriminate).
+  assert (H0 : x mod 16 < 16) by (apply N.mod_lt; discriminate).
+  destruct (4096 <=? x) eqn:E3; destruct (256 <=? x) eqn:E2; destruct (16 <=? x) eqn:E1;
+    cbn [app all_bytes hexfold fold_left]; unfold hexc; rewrite !hexval_hexdigit by assumption;
+    cbn [andb]; apply N.eqb_eq; zify; Z.div_mod_to_equations; lia.
+Qed.
 
 Lemma hex_run_hex4 x rest : x < 65536 ->
   match rest with [] => True | c :: _ => hexval c = None end ->
